@@ -4,6 +4,8 @@ package litefs
 var verifHarnesses = map[string]func(){
 	"VerifC15Drop":        VerifC15Drop,
 	"VerifC15ReplicaDrop": VerifC15ReplicaDrop,
+	"VerifC07Replica":     VerifC07Replica,
+	"VerifC07Demoted":     VerifC07Demoted,
 	"VerifC09Listing":     VerifC09Listing,
 	"VerifC09Retention":   VerifC09Retention,
 	"VerifC12Step":     VerifC12Step,
